@@ -73,6 +73,14 @@ def lookup_sites(prog, rep, floor=2):
         recv = prov.operand_origin(cbody, ct["args"][0], cdefs)
         arg = prov.operand_origin(cbody, ct["args"][1], cdefs)
         recv_ok = recv[0] == "arg" and recv[1] == 2 and prov.fields_of(recv[2]) in ([], [0])
+        if not recv_ok:
+            # partial_cmp is there, but not applied to the element itself (a key-extraction closure, a helper):
+            # judge what the comparator computes instead
+            res = semantic_lookup_sites(prog, rep, [b]).get(b.id)
+            if res:
+                errs = [r for r in res if r]
+                rep.ob("L3-comparator", inst + " (semantic)", not errs, "; ".join(sorted(set(errs))[:2]), cbody.where(), key="L3-comparator|%s" % inst)
+                continue
         rep.ob("L3-orientation", inst + " receiver", recv_ok, "partial_cmp receiver is %s; must be the table element (arg2[.0]) — a swapped orientation inverts the search" % prov.describe(recv), where(ct), sample=True)
         arg_ok = arg[0] == "arg" and arg[1] == 1 and len(prov.fields_of(arg[2])) == 1
         cap_desc = "?"
@@ -259,12 +267,34 @@ def comparator_semantics(prog, clo_value, caller_machine, caller_state, elem_ty)
                 if isinstance(k, tuple) and k[0] == "cmp" and isinstance(key, I):
                     pass
 
+            def parts(x):
+                if isinstance(x, tuple) and len(x) == 3 and x[0] == "lin":
+                    return x[1], x[2]
+                return x, 0
+
             def rel(name):
                 kn = key.name if isinstance(key, Sym) else None
-                if (name, kn) in known:
-                    return [known[(name, kn)]]
-                if (kn, name) in known:
-                    return [-known[(kn, name)]]
+                # every decision the path took about (name + dx) ? (key + dy) narrows the order of name and key
+                # (integer arithmetic: name + 1 <= key  iff  name < key)
+                allowed = None
+                for (x, y), v in known.items():
+                    (bx, dx), (by, dy) = parts(x), parts(y)
+                    if bx == name and by == kn and kn is not None:
+                        d, vv = dy - dx, v
+                    elif bx == kn and by == name and kn is not None:
+                        d, vv = dx - dy, -v
+                    else:
+                        continue
+                    if abs(d) > 64:
+                        raise AnalysisError("the comparator computes with a table bound (offset %d)" % d)
+                    ok_ = set()
+                    for nm in range(0, 200):
+                        c_ = (nm > 100 + d) - (nm < 100 + d)  # order of name and key + d, with key = 100
+                        if c_ == vv:
+                            ok_.add((nm > 100) - (nm < 100))
+                    allowed = ok_ if allowed is None else (allowed & ok_)
+                if allowed is not None:
+                    return sorted(allowed)
                 if isinstance(key, I):
                     r = ip.rng_get(o.state, Sym(name, "u32"))
                     outc = set()
@@ -287,6 +317,72 @@ def comparator_semantics(prog, clo_value, caller_machine, caller_state, elem_ty)
                 if got != want:
                     problems.append("for a %s entry with %s the comparator answers %s, binary search needs %s" % (shape, "entry %s key" % ("<" if rh < 0 else ">" if rl > 0 else "containing the"), ["Less", "Equal", "Greater"][got + 1], ["Less", "Equal", "Greater"][want + 1]))
     return "; ".join(sorted(set(problems))[:2]) if problems else None
+
+
+SLICE_EDGE = ("core::slice::<impl [T]>::first", "core::slice::<impl [T]>::last")
+
+
+def static_path_of(m, st, v):
+    from ..models import deref_all
+    from .. import interp as ip
+
+    if isinstance(v, ip.Ref) and v.loc[0] == "static" and not v.loc[2]:
+        return v.loc[1]
+    x = deref_all(m, st, v)
+    if isinstance(x, ip.Opq) and x.kind == "static":
+        return x.data[0]
+    return None
+
+
+def edge_row(prog, path, which):
+    """The first / last row of a folded table static as a concrete value: a Codepoints entry, or a tuple that
+    starts with one (`table.first()` / `table.last()` in a lookup helper's range pre-check). None: empty table."""
+    import re as _re
+
+    from .. import interp as ip
+    from .. import tables
+    from .. import types as ty_
+
+    tabs, _errs = tables.all_tables(prog)
+    rows = tabs.get(path)
+    if rows is None:
+        raise ip.AnalysisError("first()/last() of %s, which is not a folded table static" % path)
+    if not rows:
+        return None
+    lo, hi, val = rows[0] if which == "first" else rows[-1]
+    cps = ip.Adt(CPS_TY, 0, (ip.I(lo, "u32"),)) if lo == hi else ip.Adt(CPS_TY, 1, (ip.Adt(RANGE_INCL, 0, (ip.I(lo, "u32"), ip.I(hi, "u32"), ip.boolean(False))),))
+    mm = _re.match(r"^\[(.*);\s*\d+\]$", prog.statics.get(path, {}).get("ty", ""))
+    ety = mm.group(1).strip() if mm else CPS_TY
+    if ety == CPS_TY:
+        return cps
+    if ety.startswith("("):
+        parts = ty_.split_top(ety[1:-1])
+        rest = []
+        for i, t in enumerate(parts[1:], 1):
+            t = t.strip()
+            a = prog.adts.get(t)
+            if isinstance(val, int) and t in ip.INT_BITS:
+                rest.append(ip.I(val, t))
+            elif isinstance(val, str) and a is not None:
+                idx = next((x["idx"] for x in a["variants"] if x["name"] == val), None)
+                rest.append(ip.Adt(t, idx, ()) if idx is not None else ty_.fresh(prog, t, ("edge", path, which, i)))
+            else:
+                rest.append(ty_.fresh(prog, t, ("edge", path, which, i)))
+        return ip.Tup(tuple([cps] + rest))
+    raise ip.AnalysisError("first()/last() of a table whose rows are %s" % ety)
+
+
+def slice_edge(prog, m, st, callee, args):
+    """Oracle for slice::first / slice::last on a table static."""
+    from .. import interp as ip
+
+    path = static_path_of(m, st, args[0])
+    if path is None:
+        return None
+    row = edge_row(prog, path, callee["name"])
+    if row is None:
+        return ip.none()
+    return ip.some(ip.Ref(("val", row)))
 
 
 def semantic_lookup_sites(prog, rep, failed):
@@ -349,6 +445,10 @@ def semantic_lookup_sites(prog, rep, failed):
                 if found:
                     return ip.ok(ip.Sym(("idx", n), "usize"))
                 return ip.err(ip.Sym(("ins", n), "usize"))
+            if callee["path"] in SLICE_EDGE:
+                r = slice_edge(prog, m, st, callee, args)
+                if r is not None:
+                    return r
             return OracleWorld.call(self, m, st, callee, args, term)
 
         def static_value(self, st, path):
